@@ -399,6 +399,13 @@ fn value_for_tuple(
         .collect()
 }
 
+thread_local! {
+    /// The member defaults (type and address of the default value) whose
+    /// rendering is in progress.
+    static FILLING: std::cell::RefCell<Vec<(TypeId, usize)>> =
+        const { std::cell::RefCell::new(Vec::new()) };
+}
+
 fn value_for_struct_props(
     properties: &[StructProperty],
     value: &serde_json::Value,
@@ -424,8 +431,21 @@ fn value_for_struct_props(
         } else if let StructPropertyState::Default(WrappedValue(prop_default)) = &prop.state {
             // A member that is absent from the value takes its own schema
             // default (as serde does), not the default of its Rust type.
+            //
+            // A recursive type can make this default contain itself (the
+            // default of `next: T` is a `T` without `next`): the value is
+            // infinite and so would be its rendering. Once we meet a member
+            // default we are already in the middle of rendering, leave that
+            // member to its `Default` impl.
+            let key = (prop.type_id.clone(), prop_default as *const serde_json::Value as usize);
+            if FILLING.with(|filling| filling.borrow().contains(&key)) {
+                return Some(quote! { #name_ident: Default::default() });
+            }
             let type_entry = type_space.id_to_entry.get(&prop.type_id).unwrap();
-            let prop_value = type_entry.output_value(type_space, prop_default, scope)?;
+            FILLING.with(|filling| filling.borrow_mut().push(key));
+            let prop_value = type_entry.output_value(type_space, prop_default, scope);
+            FILLING.with(|filling| filling.borrow_mut().pop());
+            let prop_value = prop_value?;
 
             Some(quote! { #name_ident: #prop_value })
         } else {
